@@ -292,29 +292,102 @@ def _num_steps(check: Check):
   fi = repo.func(MOD, 'ShuffleRepeatBatchView.__init__')
   ff = FuncFlow.of(repo, fi)
   check.analysed(fi)
-  floor = ceil = cap = only_steps = none = False
-  for n in ff.cfg.nodes:
-    if n.kind != 'stmt' or not isinstance(n.ast, ast.Assign) or txt(n.ast.targets[0]) != 'self._num_steps':
-      continue
-    v = n.ast.value
-    g = [(txt(t), pol) for t, pol in guards_of(ff, n.ast)]
-    t = txt(v)
-    if isinstance(v, ast.BinOp) and isinstance(v.op, ast.FloorDiv):
-      num = v.left
-      if ntxt(num) == 'hparams.num_epochs * self._data_size' and txt(v.right) == 'hparams.batch_size':
-        floor = ('hparams.drop_remainder', True) in g
-      if ntxt(num) == '((hparams.num_epochs * self._data_size) + hparams.batch_size) - 1' and txt(v.right) == 'hparams.batch_size':
-        ceil = ('hparams.drop_remainder', False) in g
-    if isinstance(v, ast.Call) and ff.ext(v.func) == 'builtins.min' and {txt(a) for a in v.args} == {'hparams.num_steps', 'self._num_steps'}:
-      cap = ('hparams.num_steps is None', False) in g and ('hparams.num_epochs is None', False) in g
-    if t == 'hparams.num_steps':
-      only_steps = ('hparams.num_epochs is None', True) in g
-    if isinstance(v, ast.Constant) and v.value is None:
-      none = True
-  check.ob('R-SIZE.steps', fi, 'drop_remainder: N*epochs // b; else (N*epochs + b - 1) // b', floor and ceil,
-           f'with num_epochs set: floor division when the remainder is dropped (ok={floor}), ceiling division otherwise (ok={ceil})')
-  check.ob('R-SIZE.steps', fi, 'min(num_steps, epochs bound) / num_steps / None', cap and only_steps and none,
-           f'both limits: the smaller one (ok={cap}); only num_steps: exactly that many (ok={only_steps}); neither: unbounded (ok={none})')
+  # Case table over (num_epochs given?, drop_remainder, num_steps given?): the statements of __init__ are followed once per case with
+  # the three tests decided by the case; what ends up in self._num_steps is an expression over len(dataset) and the hyper-parameters
+  # and is compared with the definition. Independent of nesting, temporaries, helpers (inlined) and the order of the tests.
+  from fjsa.rules import cases
+
+  RENAME = {'len(client_dataset)': 'N', 'hparams.num_epochs': 'E', 'hparams.batch_size': 'B', 'hparams.num_steps': 'S',
+            'self._data_size': 'N', 'self._batch_size': 'B'}
+
+  def norm(e):
+    return cases.canon_text(e, RENAME)
+
+  def forms(*srcs):
+    return {norm(ast.parse(x, mode='eval').body) for x in srcs}
+  FLOOR = forms('N * E // B', '(N * E) // B')
+  CEIL = forms('(N * E + B - 1) // B', '-(-(N * E) // B)', '-(-N * E // B)', '(N * E + (B - 1)) // B', '(N * E - 1) // B + 1')
+
+  def capped(fs):
+    return {f'min({", ".join(sorted(["S", f]))})' for f in fs}
+  verdicts = {'bound': True, 'cap': True}
+  detail = []
+  truthy = set()
+  for has_e in (True, False):
+    for drop in (True, False):
+      for has_s in (True, False):
+        def decide(t, has_e=has_e, drop=drop, has_s=has_s):
+          if isinstance(t, ast.UnaryOp) and isinstance(t.op, ast.Not):
+            r = decide(t.operand)
+            return None if r is None else not r
+          if isinstance(t, ast.BoolOp):
+            rs = [decide(v) for v in t.values]
+            if isinstance(t.op, ast.And):
+              return False if any(r is False for r in rs) else (None if any(r is None for r in rs) else True)
+            return True if any(r is True for r in rs) else (None if any(r is None for r in rs) else False)
+          if isinstance(t, ast.Compare) and len(t.ops) == 1 and isinstance(t.ops[0], (ast.Is, ast.IsNot)) and isinstance(
+              t.comparators[0], ast.Constant) and t.comparators[0].value is None:
+            k = txt(t.left)
+            isnone = None
+            if k.endswith('num_epochs'):
+              isnone = not has_e
+            elif k.endswith('num_steps'):
+              isnone = not has_s
+            if isnone is None:
+              return None
+            return isnone if isinstance(t.ops[0], ast.Is) else not isnone
+          if isinstance(t, (ast.Name, ast.Attribute)) and txt(t).endswith('drop_remainder'):
+            return drop
+          if isinstance(t, (ast.Name, ast.Attribute)) and txt(t).endswith(('num_steps', 'num_epochs')):
+            truthy.add(txt(t))   # `if hparams.num_steps:` - 0 is a value, not "unset"
+            return has_s if txt(t).endswith('num_steps') else has_e
+          return None
+        env, _ = cases.evaluate(fi.node.body, {}, decide)
+        got = None if env is cases.UNKNOWN else env.get('self._num_steps')
+        g = norm(got) if isinstance(got, ast.AST) else None
+        bound = (FLOOR if drop else CEIL)
+        wrong_bound = (CEIL if drop else FLOOR)
+        if not has_e:
+          want = {'S'} if has_s else {'None'}
+          key = 'cap'
+          bad = FLOOR | CEIL | capped(FLOOR | CEIL)
+        elif has_s:
+          want = capped(bound)
+          key = 'cap'
+          bad = bound | wrong_bound | capped(wrong_bound) | {'S'}
+        else:
+          want = bound
+          key = 'bound'
+          bad = wrong_bound | capped(bound | wrong_bound) | {'S', 'None'}
+        v = True if g in want else (False if g in bad else None)
+        if v is None and isinstance(got, ast.AST):
+          # neither a listed form: compare with the definition on a grid of small integers (constant folding of the expression)
+          import itertools
+          same_all, decided = True, True
+          for N_, E_, B_, S_ in itertools.product(range(0, 8), range(1, 4), range(1, 5), range(0, 10)):
+            ref = (N_ * E_) // B_ if drop else -(-(N_ * E_) // B_)
+            exp = (S_ if has_s else 'None') if not has_e else (min(S_, ref) if has_s else ref)
+            val = cases.arith_value(got, {'N': N_, 'E': E_, 'B': B_, 'S': S_}, RENAME)
+            if val is None:
+              decided = False
+              break
+            if val != exp:
+              same_all = False
+              break
+          v = None if not decided else same_all
+        detail.append(f'epochs={"set" if has_e else "None"},drop={drop},steps={"set" if has_s else "None"}: {g}')
+        if v is False:
+          verdicts[key] = False
+        elif v is None and verdicts[key] is True:
+          verdicts[key] = None
+  shown = '; '.join(d for d in detail if 'epochs=set' in d and 'steps=None' in d)
+  check.ob('R-SIZE.steps', fi, 'drop_remainder: N*epochs // b; else (N*epochs + b - 1) // b', verdicts['bound'],
+           f'with num_epochs set: floor division when the remainder is dropped, ceiling division otherwise ({shown})')
+  for tname in sorted(truthy):
+    check.ob('R-SIZE.steps', fi, f'if {tname}:', False,
+             f'`{tname}` is an optional count tested by truthiness: 0 (train for no steps / no epochs) is taken for "not set"', exact=True)
+  check.ob('R-SIZE.steps', fi, 'min(num_steps, epochs bound) / num_steps / None', verdicts['cap'],
+           'both limits: the smaller one; only num_steps: exactly that many; neither: unbounded (None)')
   seed = any(isinstance(st, ast.Assign) and txt(st.targets[0]) == 'self._seed' and txt(st.value) == 'hparams.seed' for st in fi.node.body)
   skip = any(isinstance(st, ast.Assign) and txt(st.targets[0]) == 'self._skip_shuffle' and txt(st.value) == 'hparams.skip_shuffle' for st in fi.node.body)
   check.ob('R-SEED', fi, 'self._seed = hparams.seed; self._skip_shuffle = hparams.skip_shuffle', seed and skip,
